@@ -12,6 +12,7 @@ import (
 	"strconv"
 	"strings"
 	"sync"
+	"sync/atomic"
 	"time"
 
 	"github.com/acquirecloud/golibs/container/iterable"
@@ -527,7 +528,7 @@ func (s *lockSys) drain(quiet time.Duration) {
 			lastProgress = time.Now()
 			continue
 		}
-		if time.Since(lastProgress) > 4*time.Second {
+		if time.Since(lastProgress) > 3*time.Second {
 			s.mu.Lock()
 			var ps []int
 			for _, p := range s.procs[1:] {
@@ -801,9 +802,19 @@ func driveLock(opt *Options) error {
 	defer w.Flush()
 	var wmu sync.Mutex
 	stats := map[string]int{}
+	var stuckRuns int32
+	// once a few schedules have ended with stuck callers the verdict is established; the remaining
+	// schedules are skipped instead of each waiting for its own stuck timeout
+	giveUp := func() bool { return atomic.LoadInt32(&stuckRuns) >= 3 }
 	flush := func(s *lockSys, reproduced bool) {
 		wmu.Lock()
 		defer wmu.Unlock()
+		for _, e := range s.events {
+			if e["e"] == "stuck" {
+				atomic.AddInt32(&stuckRuns, 1)
+				break
+			}
+		}
 		stats["schedules"]++
 		if reproduced {
 			stats["reproduced"]++
@@ -839,6 +850,9 @@ func driveLock(opt *Options) error {
 			go func() {
 				defer wg.Done()
 				for b := range ch {
+					if giveUp() {
+						continue
+					}
 					lockerOf, provOf := b[0].Ints("lockerOf"), b[0].Ints("provOf")
 					s, err := newLockSys(lockerOf, provOf, opt.Variant, lease)
 					if err != nil {
@@ -866,6 +880,9 @@ func driveLock(opt *Options) error {
 			go func(i int) {
 				defer wg.Done()
 				defer func() { <-sem }()
+				if giveUp() {
+					return
+				}
 				rnd := rand.New(rand.NewSource(opt.Seed*1000003 + int64(i)))
 				lockerOf, provOf := randomTopology(rnd)
 				s, err := newLockSys(lockerOf, provOf, opt.Variant, lease)
